@@ -48,6 +48,7 @@ EXPLANATION = (
 RULE_TEXT = ("one instance = one (class, key) pair, one control-text token, one options parameter or one enum member; distinct = distinct "
              "constructs")
 ASSUMPTIONS = [
+    "options: where a group's __setattr__ validation cannot be evaluated, values emitted by to_dict are taken to pass it unchanged (the sample 'setattr_validation_not_evaluable' lists such classes; none today)",
     "to_dict emits exactly the public non-method attributes found statically in the class bodies and __init__ (no attributes added at run time except user-defined ones, which from_dict copies generically)",
     "priority and name of simple controls are not part of the dictionary and therefore outside the statement's equality criterion",
     "rule conditions that EPANET's rule grammar cannot express (RelativeCondition, FunctionCondition, one-day TimeOfDayCondition) are not analysed",
@@ -1494,6 +1495,19 @@ def concrete_evaluator(repo):
             return {k.arg: ev.ev(k.value) for k in n.keywords}
         if name in ("list", "tuple") and not n.args and not n.keywords:
             return []
+        if isinstance(n.func, ast.Attribute) and n.func.attr in ("items", "keys", "values") and not n.args and not n.keywords:
+            base = ev.ev(n.func.value)
+            if isinstance(base, dict):
+                return [[k, v] for k, v in base.items()] if n.func.attr == "items" else list(getattr(base, n.func.attr)())
+        if name in ("max", "min") and len(n.args) >= 2 and not n.keywords:
+            vals = [ev.ev(a) for a in n.args]
+            if all(isinstance(v, (int, float)) for v in vals):
+                return max(vals) if name == "max" else min(vals)
+        if name in ("str.upper", "str.lower", "str.strip") and len(n.args) == 1:
+            v = ev.ev(n.args[0])
+            if isinstance(v, str):
+                return getattr(v, name.split(".")[1])()
+            raise _PyExc("TypeError")
         if name in ("float", "int") and len(n.args) == 1 and not n.keywords:
             v = ev.ev(n.args[0])
             if isinstance(v, (str, int, float)):
@@ -1529,6 +1543,45 @@ def concrete_evaluator(repo):
                 except (TypeError, ValueError) as e:
                     raise Unknown("%%-format: %s" % e)
             return Base.binop(self, op, a, b, n)
+
+        def _comprehend(self, gens, emit):
+            from ..peval import Unknown
+            saved = dict(self.env)
+
+            def rec(i):
+                if i == len(gens):
+                    emit()
+                    return
+                g = gens[i]
+                items = self.ev(g.iter)
+                if isinstance(items, dict):
+                    items = list(items.keys())
+                if not isinstance(items, (list, tuple)):
+                    raise Unknown("comprehension over %r" % (items,))
+                for it in list(items):
+                    self.assign(g.target, it)
+                    if all(self.truth(self.ev(c)) for c in g.ifs):
+                        rec(i + 1)
+            try:
+                rec(0)
+            finally:
+                self.env.clear()
+                self.env.update(saved)
+
+        def e_ListComp(self, n):
+            out = []
+            self._comprehend(n.generators, lambda: out.append(self.ev(n.elt)))
+            return out
+
+        e_GeneratorExp = e_SetComp = e_ListComp
+
+        def e_DictComp(self, n):
+            out = {}
+
+            def put():
+                out[self.ev(n.key)] = self.ev(n.value)
+            self._comprehend(n.generators, put)
+            return out
 
         def e_JoinedStr(self, n):
             from ..peval import Unknown, Obj
@@ -2426,6 +2479,329 @@ def rule_condition_grouping(repo, chk):
     chk.floor("R-C13-3f", 1)
 
 
+# --------------------------------------------------------------------------- the options object graph, evaluated
+def options_object_model(repo):
+    """a concrete evaluator for the classes of wntr/network/options.py: class objects, instantiation (parameters bound like Python binds
+    them: defaults, **kwargs, TypeError for an unexpected keyword), classmethods (factory), __setattr__ overrides (an assignment to an
+    attribute of an instance runs the class's __setattr__; `self.__dict__[name] = value` stores), module-level helper functions, and
+    inspect.signature(...).parameters read off the __init__ of the class.  -> instantiate(class name, args, kwargs) -> instance (peval.Obj
+    whose attrs are the instance __dict__); fell_back: set of classes whose __setattr__ left the evaluable fragment (plain store used)."""
+    from ..peval import Obj, Unknown, Raised, Returned
+    Ev, hook0 = concrete_evaluator(repo)
+    tree = repo.tree(OPTS)
+    classes = {n.name: n for n in tree.body if isinstance(n, ast.ClassDef)}
+    funcs = {n.name: n for n in tree.body if isinstance(n, ast.FunctionDef)}
+    cobjs = {}
+    fell_back = set()
+    pytypes = {"dict": dict, "list": list, "tuple": tuple, "str": str, "int": int, "float": float, "bool": bool, "six.string_types": str}
+
+    def cobj(name):
+        if name not in cobjs:
+            cobjs[name] = Obj("class %s" % name, {"__name__": name}, cls="class")
+            cobjs[name].cname = name
+        return cobjs[name]
+
+    def mro(name):
+        out, todo = [], [name]
+        while todo:
+            c = todo.pop(0)
+            if c in out or c not in classes:
+                continue
+            out.append(c)
+            todo += [b.id for b in classes[c].bases if isinstance(b, ast.Name)]
+        return out
+
+    def find(cname, meth):
+        for c in mro(cname):
+            for n in classes[c].body:
+                if isinstance(n, ast.FunctionDef) and n.name == meth:
+                    return n
+        return None
+
+    def class_attr(d):
+        if d in classes:
+            return cobj(d)
+        if "." not in d:
+            try:
+                node = repo.module_assign(OPTS, d)
+            except AnchorError:
+                raise Unknown("unbound name %s" % d)
+            return make({}).ev(node)
+        raise Unknown("unknown dotted name %s" % d)
+
+    def bind(fn, args, kwargs, what):
+        a = fn.args
+        names = [x.arg for x in a.posonlyargs + a.args]
+        env = {}
+        if len(args) > len(names) and not a.vararg:
+            raise _PyExc("TypeError")
+        for nme, v in zip(names, args):
+            env[nme] = v
+        if a.vararg:
+            env[a.vararg.arg] = list(args[len(names):])
+        kwonly = [x.arg for x in a.kwonlyargs]
+        extra = {}
+        for k, v in kwargs.items():
+            if k in names[len(a.posonlyargs):] or k in kwonly:
+                if k in env:
+                    raise _PyExc("TypeError")
+                env[k] = v
+            elif a.kwarg:
+                extra[k] = v
+            else:
+                raise _PyExc("TypeError")       # unexpected keyword argument
+        if a.kwarg:
+            env[a.kwarg.arg] = extra
+        dflt = dict(zip(names[len(names) - len(a.defaults):], a.defaults))
+        dflt.update({k: d for k, d in zip(kwonly, a.kw_defaults) if d is not None})
+        for nme in names + kwonly:
+            if nme not in env:
+                if nme not in dflt:
+                    raise _PyExc("TypeError")   # missing argument
+                env[nme] = make({}).ev(dflt[nme])
+        return env
+
+    def call_fn(fn, args, kwargs, what):
+        ev = make(bind(fn, args, kwargs, what))
+        return ev.run(fn.body)
+
+    def instantiate(cname, args, kwargs):
+        inst = Obj("instance of %s" % cname, {}, cls="instance")
+        inst.cname = cname
+        ini = find(cname, "__init__")
+        if ini is None:
+            if args or kwargs:
+                raise _PyExc("TypeError")
+            return inst
+        call_fn(ini, [inst] + list(args), kwargs, "%s.__init__" % cname)
+        return inst
+
+    def isinst(v, texpr, ev):
+        ts = texpr.elts if isinstance(texpr, (ast.Tuple, ast.List)) else [texpr]
+        for t in ts:
+            d = dotted(t)
+            if d in pytypes:
+                if not isinstance(v, Obj) and isinstance(v, pytypes[d]) and not (isinstance(v, bool) and d in ("int", "float") and False):
+                    return True
+                continue
+            tv = ev.ev(t)
+            if isinstance(tv, Obj) and tv.cls == "class":
+                if isinstance(v, Obj) and v.cls == "instance" and tv.cname in mro(v.cname):
+                    return True
+                continue
+            raise Unknown("isinstance against %s" % unparse(t))
+        return False
+
+    def call_args(n, ev):
+        args, kwargs = [], {}
+        for a in n.args:
+            if isinstance(a, ast.Starred):
+                v = ev.ev(a.value)
+                if not isinstance(v, (list, tuple)):
+                    raise Unknown("*%r" % (v,))
+                args.extend(v)
+            else:
+                args.append(ev.ev(a))
+        for k in n.keywords:
+            if k.arg is None:
+                v = ev.ev(k.value)
+                if not isinstance(v, dict):
+                    raise Unknown("**%r" % (v,))
+                kwargs.update(v)
+            else:
+                kwargs[k.arg] = ev.ev(k.value)
+        return args, kwargs
+
+    def signature_of(target):
+        """parameters mapping as inspect.signature gives it: of a function object, or of a class (its __init__ without self)."""
+        if isinstance(target, Obj) and target.cls == "function":
+            fn, skip = target.fn, 1 if target.bound else 0
+        elif isinstance(target, Obj) and target.cls == "class":
+            fn, skip = find(target.cname, "__init__"), 1
+            if fn is None:
+                return {}
+        else:
+            raise Unknown("inspect.signature(%r)" % (target,))
+        a = fn.args
+        names = [x.arg for x in a.posonlyargs + a.args][skip:]
+        if a.vararg:
+            names.append(a.vararg.arg)
+        names += [x.arg for x in a.kwonlyargs]
+        if a.kwarg:
+            names.append(a.kwarg.arg)
+        return {nme: Obj("parameter %s" % nme, {"name": nme}) for nme in names}
+
+    def hook(name, n, ev):
+        f = n.func
+        if name.split(".")[0] in ("logger", "logging", "warnings"):
+            return None
+        if name == "isinstance" and len(n.args) == 2:
+            return isinst(ev.ev(n.args[0]), n.args[1], ev)
+        if name in ("inspect.signature", "signature") and len(n.args) == 1:
+            return Obj("signature", {"parameters": signature_of(ev.ev(n.args[0]))})
+        if name in ("copy.deepcopy", "copy.copy", "deepcopy") and len(n.args) >= 1:
+            return ev.ev(n.args[0])
+        if name == "dict" and len(n.args) == 1:
+            v = ev.ev(n.args[0])
+            if isinstance(v, dict):
+                out = dict(v)
+                out.update({k.arg: ev.ev(k.value) for k in n.keywords if k.arg})
+                return out
+            raise _PyExc("TypeError")
+        if name in ("hasattr", "getattr") and len(n.args) >= 2:
+            o, a_ = ev.ev(n.args[0]), ev.ev(n.args[1])
+            if isinstance(o, Obj) and o.cls == "instance" and isinstance(a_, str):
+                has = a_ in o.attrs or find(o.cname, a_) is not None
+                if name == "hasattr":
+                    return has
+                if a_ in o.attrs:
+                    return o.attrs[a_]
+                if len(n.args) == 3:
+                    return ev.ev(n.args[2])
+        if isinstance(f, ast.Name):
+            tgt = ev.env.get(f.id)
+            if tgt is None and f.id in classes:
+                tgt = cobj(f.id)
+            if isinstance(tgt, Obj) and tgt.cls == "class":
+                args, kwargs = call_args(n, ev)
+                return instantiate(tgt.cname, args, kwargs)
+            if f.id in funcs and f.id not in ev.env:
+                args, kwargs = call_args(n, ev)
+                return call_fn(funcs[f.id], args, kwargs, f.id)
+        if isinstance(f, ast.Attribute) and f.attr not in ("get", "items", "keys", "values", "append", "join", "format", "upper", "lower", "strip"):
+            try:
+                base = ev.ev(f.value)
+            except Unknown:
+                base = None
+            if isinstance(base, Obj) and base.cls in ("class", "instance"):
+                m = find(base.cname, f.attr)
+                if m is not None:
+                    args, kwargs = call_args(n, ev)
+                    decos = {dotted(d) for d in m.decorator_list}
+                    if "classmethod" in decos:
+                        first = [base if base.cls == "class" else cobj(base.cname)]
+                    elif "staticmethod" in decos:
+                        first = []
+                    else:
+                        first = [base] if base.cls == "instance" else []
+                    return call_fn(m, first + args, kwargs, "%s.%s" % (base.cname, f.attr))
+        return hook0(name, n, ev)
+
+    def attr_hook(obj, attr):
+        if isinstance(obj, Obj) and obj.cls == "instance":
+            if attr == "__dict__":
+                return obj.attrs
+            if attr == "__class__":
+                return cobj(obj.cname)
+            if attr not in obj.attrs:
+                m = find(obj.cname, attr)
+                if m is not None:
+                    fo = Obj("function %s.%s" % (obj.cname, attr), {}, cls="function")
+                    fo.fn, fo.bound = m, True       # inspect.signature of a bound method drops self
+                    return fo
+        if isinstance(obj, Obj) and obj.cls == "class":
+            if attr == "__name__":
+                return obj.cname
+            m = find(obj.cname, attr)
+            if m is not None:
+                fo = Obj("function %s.%s" % (obj.cname, attr), {}, cls="function")
+                fo.fn, fo.bound = m, False
+                return fo
+        return NotImplemented
+
+    class E(Ev):
+        def assign(self, t, v):
+            if isinstance(t, ast.Attribute):
+                base = self.ev(t.value)
+                if isinstance(base, Obj) and base.cls == "instance":
+                    sa = find(base.cname, "__setattr__")
+                    if sa is None:
+                        base.attrs[t.attr] = v
+                        return
+                    before = dict(base.attrs)
+                    try:
+                        call_fn(sa, [base, t.attr, v], {}, "%s.__setattr__" % base.cname)
+                    except Unknown:
+                        # validation outside the evaluable fragment: values emitted by to_dict are assumed to pass it unchanged
+                        fell_back.add(base.cname)
+                        base.attrs.clear()
+                        base.attrs.update(before)
+                        base.attrs[t.attr] = v
+                    return
+            return Ev.assign(self, t, v)
+
+        def e_Attribute(self, n):
+            base_is_name = isinstance(n.value, ast.Name)
+            if base_is_name and n.value.id in self.env or not base_is_name:
+                base = self.ev(n.value)
+                r = attr_hook(base, n.attr)
+                if r is not NotImplemented:
+                    return r
+                if isinstance(base, Obj) and n.attr in base.attrs:
+                    return base.attrs[n.attr]
+                if isinstance(base, Obj) and base.cls == "instance":
+                    raise _PyExc("AttributeError")
+            return Ev.e_Attribute(self, n)
+
+    def make(env):
+        return E(env, class_attr, hook, attr_hook)
+    return instantiate, fell_back, classes
+
+
+def rule_options_round_trip(repo, chk, groups, init):
+    """R-C13-4 (evaluated): the dictionary to_dict emits for every options group, passed back as from_dict does --
+    Options.__init__(**d['options']) -> <Group>.factory(<dict>) -> <Group>.__init__ / __setattr__ -- re-creates every key under
+    the same name with the same value.  Includes the open-ended group (UserOptions: arbitrary keys)."""
+    from ..peval import Obj, Unknown, Raised
+    instantiate, fell_back, classes = options_object_model(repo)
+
+    def guarded(what, f):
+        try:
+            return "ok", f()
+        except Raised as r:
+            return "raises %s" % norm(r.node), None
+        except _PyExc as e:
+            return "raises %s" % e.kind, None
+        except (Unknown, RecursionError) as e:
+            raise ExtractError("options: %s is outside the evaluable fragment: %s" % (what, e))
+
+    emitted = {}
+    for g, (cls, arg) in sorted(groups.items()):
+        if cls not in classes:
+            raise AnchorError("options class %s vanished" % cls)
+        st, inst = guarded("%s()" % cls, lambda: instantiate(cls, [], {}))
+        chk.expect(st == "ok", "R-C13-4", "options group %s is constructible with its defaults (the keys of its __dict__ are what to_dict emits)" % cls, loc(init),
+                   "%s() %s: __init__ stores an attribute its own __setattr__ rejects, or a default is refused" % (cls, st), found=st)
+        if st != "ok":
+            continue
+        d_ = dict(inst.attrs)
+        ini = [n for n in classes[cls].body if isinstance(n, ast.FunctionDef) and n.name == "__init__"]
+        open_ended = bool(ini) and ini[0].args.kwarg is not None
+        if open_ended or not d_:
+            # user-defined entries: any name, any JSON value
+            d_.update({"x": 7, "label": "mc-run"})
+        emitted[g] = (cls, d_, open_ended)
+    st, opt = guarded("Options(**d['options'])", lambda: instantiate("Options", [], {g: dict(v[1]) for g, v in emitted.items()}))
+    chk.sample({"options_groups_evaluated": {g: sorted(v[1]) for g, v in emitted.items()}, "setattr_validation_not_evaluable": sorted(fell_back)})
+    missing = object()
+    for g, (cls, d_, open_ended) in sorted(emitted.items()):
+        ginst = opt.attrs.get(g) if st == "ok" else None
+        for k, v in sorted(d_.items()):
+            if st != "ok":
+                ok, found = False, "Options.__init__(**d['options']) %s" % st
+            elif not (isinstance(ginst, Obj) and ginst.cls == "instance" and ginst.cname == cls):
+                ok, found = False, "options.%s is %r, not a %s" % (g, ginst, cls)
+            else:
+                got = ginst.attrs.get(k, missing)
+                ok = got is not missing and type(got) is not Obj and got == v or (got is v)
+                found = "<missing>" if got is missing else repr(got)
+            chk.expect(ok, "R-C13-4", "options.%s key %r%s survives Options.__init__(**d['options']) -> %s.factory(dict) -> %s.__init__" % (
+                g, k, " (user-defined entry)" if open_ended and k in ("x", "label") else "", cls, cls), loc(init),
+                "to_dict emits options[%r][%r] = %r; passing the dictionary back the way from_dict does re-creates the group with %s for that key: "
+                "the entry is lost or changed in a to_dict / from_dict (read_json, append) round trip" % (g, k, v, found),
+                expected=repr(v), found=found)
+
+
 def rule_options(repo, chk):
     """R-C13-4: Options.to_dict = dict(self) yields each options object's __dict__; from_dict feeds it to __init__(**d)."""
     top = repo.cls(OPTS, "Options")
@@ -2449,9 +2825,10 @@ def rule_options(repo, chk):
     fd = repo.func(NIO, "from_dict")
     chk.expect(any("options.__init__(**d['options'])" in unparse(n).replace('"', "'") for n in walk(fd) if isinstance(n, ast.Expr)), "R-C13-4",
                "from_dict re-initialises options with __init__(**d['options'])", loc(fd))
+    rule_options_round_trip(repo, chk, groups, init)
     for g, (cls, arg) in sorted(groups.items()):
         if cls == "UserOptions":
-            continue
+            continue        # no named keywords to compare one by one; decided by the evaluated round trip above
         c = repo.cls(OPTS, cls)
         ini = [n for n in c.body if isinstance(n, ast.FunctionDef) and n.name == "__init__"]
         if not ini:
@@ -2551,6 +2928,21 @@ WITNESSES = [
     dict(name="p-multipliers-setter-unconverted-but-to-dict-converts", file=ELEM, old="            self._multipliers = np.array(values, dtype=np.float64)\n",
          new="            self._multipliers = np.array(values)\n", also=[("multipliers=list(self._multipliers))", "multipliers=[float(m) for m in self._multipliers])")],
          silent=True),
+    dict(name="seed3-factory-filters-dict-by-init-signature-drops-user-options", file=OPTS, old="            return cls(**val)\n",
+         new="            known = inspect.signature(cls.__init__).parameters\n            unknown = [k for k in val if k not in known]\n"
+             "            if unknown:\n                logger.warning('%s: ignoring unknown option(s) %s', cls.__name__, ', '.join(map(str, unknown)))\n"
+             "            return cls(**{k: v for k, v in val.items() if k in known})\n", rule="R-C13-4"),
+    dict(name="user-options-init-ignores-its-keywords", file=OPTS, old="        for k, v in kwargs.items():\n            self.__dict__[k] = v\n",
+         new="        for k, v in kwargs.items():\n            if hasattr(self, k):\n                self.__dict__[k] = v\n", rule="R-C13-4"),
+    dict(name="p-factory-copies-the-dict-and-only-reports-unknown-keys", file=OPTS, old="            return cls(**val)\n",
+         new="            known = inspect.signature(cls.__init__).parameters\n            unknown = [k for k in val if k not in known]\n"
+             "            if unknown:\n                logger.debug('%s: option(s) without a named parameter: %s', cls.__name__, unknown)\n"
+             "            kwargs = {k: v for k, v in val.items()}\n            return cls(**kwargs)\n", silent=True),
+    dict(name="p-factory-early-returns", file=OPTS,
+         old="        if isinstance(val, cls):\n            return val\n        elif isinstance(val, dict):\n            return cls(**val)\n"
+             "        elif isinstance(val, (list, tuple)):\n            return cls(*val)\n        elif val is None:\n            return cls()\n",
+         new="        if val is None:\n            return cls()\n        if isinstance(val, cls):\n            return val\n        if isinstance(val, dict):\n"
+             "            return cls(**dict(val))\n        if isinstance(val, (list, tuple)):\n            return cls(*val)\n", silent=True),
     # ---- behaviour-preserving shapes that must stay quiet
     dict(name="p-action-str-fstring", file=CTRL,
          old='        return "{} {} {} IS {}".format(target_obj_type.upper(),\n                                       self._target_obj.name,\n'
